@@ -277,6 +277,9 @@ Proof. intros []. reflexivity. Qed.
 Lemma append_nonempty : forall a c r, String.eqb (a ++ String c r)%string "" = false.
 Proof. intros [|x a] c r; reflexivity. Qed.
 
+Lemma agent_nonempty : forall a b, String.eqb (a ++ (" " ++ b))%string "" = false.
+Proof. intros [|x a] b; reflexivity. Qed.
+
 (* what [legal] gives, as propositions *)
 Record legal_facts (i : input) (kn : string) : Prop := mk_lf {
   lf_now : (0 <= i_now i)%Z;
@@ -289,6 +292,7 @@ Record legal_facts (i : input) (kn : string) : Prop := mk_lf {
               end;
   lf_nodup : nodup_keys (target_anns (i_target i) ++ i_meta i) = true;
   lf_vnodup : nodup_keys (i_vmeta i) = true;
+  lf_vtnodup : nodup_keys (target_anns (i_vtarget i)) = true;
   lf_kind : is_blob (i_target i) = is_blob (i_vtarget i);
   lf_safe : safe_map (target_anns (i_target i) ++ i_meta i) = true;
   lf_res : forall e, In e (i_meta i) -> has_prefix "io.cncf.notary" (fst e) = false;
@@ -311,9 +315,10 @@ Proof.
   - apply Z.leb_le. assumption.
   - apply Z.leb_le. assumption.
   - apply Z.eqb_eq. assumption.
-  - apply orb_split in L6. destruct L6 as [E|E]; apply String.eqb_eq in E; auto.
+  - apply orb_split in L7. destruct L7 as [E|E]; apply String.eqb_eq in E; auto.
   - destruct (i_signer i) as [|cs ce ds]; [exact I|].
-    apply andb_split in L5. destruct L5 as [E1 E2]. apply String.eqb_eq in E2. apply orb_split in E1. auto.
+    apply andb_split in L6. destruct L6 as [E1 E2]. apply String.eqb_eq in E2. apply orb_split in E1. auto.
+  - assumption.
   - assumption.
   - assumption.
   - apply Bool.eqb_prop. assumption.
@@ -517,7 +522,7 @@ Section Generic.
           rewrite Ta. rewrite (core_sign_ok i a (sanitize D)) by (try assumption; destruct D; exact Hj).
           rewrite Te, Th, keyspec_eqb_refl.
           rewrite (generic_sign_ok i (i_ks i) a D) by (try assumption; rewrite HS; assumption).
-          rewrite HD. rewrite append_nonempty. reflexivity.
+          rewrite HD. rewrite agent_nonempty. reflexivity.
         * destruct Hcap as [Hcap|Hcap]; [discriminate|]. subst capenv.
           rewrite (plugin_envelope_ok i kn a D an F' Ta Tne HD HA) by (rewrite Ht; assumption).
           reflexivity.
@@ -544,9 +549,92 @@ Section Generic.
           rewrite Ta. rewrite (core_sign_ok i a (sanitize D)) by (try assumption; exact Hj).
           rewrite Te, Th, keyspec_eqb_refl.
           rewrite (generic_sign_ok i (i_ks i) a D) by (try assumption; rewrite HS; assumption).
-          rewrite HD. rewrite append_nonempty. reflexivity.
+          rewrite HD. rewrite agent_nonempty. reflexivity.
         * destruct Hcap as [Hcap|Hcap]; [discriminate|]. subst capenv.
           rewrite (plugin_envelope_ok i kn a D an F' Ta Tne HD HA) by (rewrite Ht; assumption).
           reflexivity.
+  Qed.
+
+  Lemma lookup_in : forall m k v, lookup k m = Some v -> In (k, v) m.
+  Proof.
+    induction m as [|[k' v'] m IH]; intros k v H; simpl in *; [discriminate|].
+    destruct (String.eqb k k') eqn:E.
+    - apply String.eqb_eq in E. inversion H; subst. left. reflexivity.
+    - right. apply IH. exact H.
+  Qed.
+
+  (* metadata demanded at verification that is part of the signed user metadata
+     has no reserved key: the blob descriptor generator accepts it *)
+  Lemma vmeta_not_reserved : forall vm meta,
+    submap vm meta = true ->
+    (forall e, In e meta -> has_prefix "io.cncf.notary" (fst e) = false) ->
+    existsb (fun e => reserved (fst e) || has_key (fst e) []) vm = false.
+  Proof.
+    intros vm meta Hs Hr. apply existsb_false. intros [k v] Hin.
+    unfold submap in Hs. rewrite forallb_forall in Hs. specialize (Hs (k, v) Hin). cbn [fst snd] in *.
+    destruct (lookup k meta) as [v'|] eqn:L; [|discriminate].
+    apply lookup_in in L. specialize (Hr (k, v') L). cbn [fst] in Hr.
+    unfold reserved, gen_reserved_annotation_prefixes. cbn [existsb]. rewrite Hr. reflexivity.
+  Qed.
+
+  Lemma final_code_cases : forall m vm p,
+    final_code m vm p = (if negb m && submap vm (d_anns p) then 0%N else if submap vm (d_anns p) then 2%N else 3%N).
+  Proof.
+    intros m vm p. unfold final_code. destruct vm as [|e vm'].
+    - destruct m; reflexivity.
+    - destruct (submap (e :: vm') (d_anns p)); destruct m; reflexivity.
+  Qed.
+
+  Definition exp_ret (rp : bool) (i : input) (signed : descr) : descr :=
+    match i_vtarget i with TOCI vd => vd | _ => if rp then signed else zero_descr end.
+
+  (* verification of what was signed: succeeds exactly on the requests the
+     property promises success for, and then returns what it must *)
+  Lemma verify_spec : forall rp i kn a hn an,
+    wf i = true -> spec_row (i_ks i) spec_table = Some (kn, a, hn, an) ->
+    let signed := expected_signed i an in
+    let v := gverify rp i (exp_env i a an) in
+    if positive i signed an
+    then v = mk_vres 0 (exp_shash i an) (Some (exp_ret rp i signed)) (Some (d_anns signed))
+    else v_code v <> 0%N /\ v_ret v = None /\ v_meta v = None.
+  Proof.
+    intros rp i kn a hn an Hwf Hrow signed v.
+    destruct (wf_elim i Hwf) as (Hl & Hsz & Hj).
+    pose proof (legal_elim i kn a hn an Hl Hrow) as F.
+    destruct (tables_agree _ _ _ _ _ Hrow) as (Ta & Tne & Ts & Tv & Te & Td & Th).
+    assert (Hdec : dec (enc signed) = Some signed).
+    { rewrite codec_rt by (unfold signed; rewrite signed_size; assumption).
+      unfold signed. rewrite (json_rt_signed i kn an F). reflexivity. }
+    pose proof F as F'. destruct F.
+    subst v. unfold gverify, verify, positive, exp_ret, exp_shash, exp_env.
+    destruct (i_target i) as [d|b mt mt_ok] eqn:Ht; destruct (i_vtarget i) as [vd|vb vmt vmt_ok] eqn:Hv;
+      cbn [is_blob] in lf_kind0; try discriminate.
+    - (* OCI *)
+      unfold verify_oci, user_metadata. cbn [e_payload]. fold signed. rewrite Hdec.
+      rewrite final_code_cases.
+      destruct (i_trusted i); cbn [negb andb]; [|repeat split; discriminate].
+      destruct (submap (i_vmeta i) (d_anns signed)); destruct (content_equal signed vd);
+        cbn [negb andb]; try reflexivity; repeat split; discriminate.
+    - (* blob *)
+      unfold verify_blob, user_metadata. cbn [e_payload e_format e_alg]. fold signed. rewrite Hdec.
+      rewrite Tv.
+      replace ((i_format i =? mt_jws) || (i_format i =? mt_cose)) with true
+        by (destruct lf_fmt0 as [E|E]; rewrite E; reflexivity).
+      cbn [negb].
+      assert (R : submap (i_vmeta i) (d_anns signed) = true ->
+                  existsb (fun e => reserved (fst e) || has_key (fst e) []) (i_vmeta i) = false).
+      { intros Hs. apply (vmeta_not_reserved _ (i_meta i)); [|assumption].
+        unfold signed in Hs. rewrite signed_anns, Ht in Hs. exact Hs. }
+      unfold blob_descriptor, add_meta. cbn [d_anns].
+      destruct (existsb (fun e => reserved (fst e) || has_key (fst e) []) (i_vmeta i)) eqn:Ex.
+      + assert (Hsub : submap (i_vmeta i) (d_anns signed) = false).
+        { destruct (submap (i_vmeta i) (d_anns signed)); [discriminate (R eq_refl)|reflexivity]. }
+        rewrite Hsub, andb_false_r. cbn [andb].
+        destruct (negb (vmt =? "") && negb vmt_ok); destruct (i_trusted i); cbn; repeat split; discriminate.
+      + cbn [d_mt d_digest d_size d_anns]. rewrite final_code_cases.
+        destruct (i_trusted i); destruct (submap (i_vmeta i) (d_anns signed));
+          destruct (vmt =? ""); destruct vmt_ok; destruct (String.eqb (blob_digest vb an) (d_digest signed));
+          destruct (b_size vb =? d_size signed)%Z; destruct (String.eqb vmt (d_mt signed));
+          cbn [negb andb orb]; try rewrite Hdec; try reflexivity; repeat split; discriminate.
   Qed.
 End Generic.
